@@ -116,6 +116,19 @@ def h_filters(E, an, aedges, bn, bedges, shift, dom="noh"):
     e_el.isomorphic(A, B)
     after2 = bool(e_full.isomorphic(A, B))
     E.check(after2 != v, "verdict-depends-on-earlier-query-with-other-attributes", dict(info, fresh=v, after=after2))
+    # partially cached history: the first engine has seen only one of the two objects (queried against itself); the second
+    # engine lists the same / fewer node attributes, possibly in another order
+    e_rev = GME(node_attrs=list(reversed(NA)), edge_attrs=EA, wl1_filter=True, max_mappings=None)
+    for first_eng, second, want, tag, cached in ((e_full, e_rev, v, "same attributes in another order", A),
+                                                 (e_rev, e_full, v, "same attributes in another order (reverse first)", B),
+                                                 (e_full, e_el, v_el, "charge-aware first, one object cached", A),
+                                                 (e_el, e_full, v, "element-only first, one object cached", B)):
+        if True:
+            GME._wl_cache.clear()
+            first_eng.isomorphic(cached, cached)
+            got = bool(second.isomorphic(A, B))
+            E.check(got != want, "verdict-depends-on-earlier-query-with-other-attributes",
+                    dict(info, engines=tag, cached="A" if cached is A else "B", fresh=want, after=got))
     # the same with engines that differ in their *edge* attribute selection
     ne_plain = GME(node_attrs=["element"], edge_attrs=[], wl1_filter=False, max_mappings=None)
     v_ne = bool(ne_plain.isomorphic(A, B))
